@@ -21,12 +21,15 @@ import fam_emitast
 ID = "C13"
 COQ_PROP = "C13"
 FAMILIES = [(fam_emitast, 4000, 40000)]
-TECHNIQUE = ("Coq proof (exact write-footprints of the three emitters; non-interference by induction over call sequences "
-             "of any length inside the guard) + differential correspondence of EmitAst.v (artefact AND post-call IR) "
+TECHNIQUE = ("Coq proof (the three AST emitters write nothing into the IR; non-interference by induction over call sequences "
+             "of any length; emit.docstring abstract with the hypothesis that it does not write) + differential "
+             "correspondence of EmitAst.v (artefact AND post-call IR) "
              "+ exhaustive enumeration of call sequences up to length 3/4 on the implementation")
 TRUSTED = [
-    "to_docstring / emit.docstring are parameters of the theorems (another layer's model); whether they rewrote the "
-    "shared IR in a run is observed by the harness and passed to the class function",
+    "the TEXT to_docstring / emit.docstring return is a parameter of the theorems (another layer's model); that "
+    "to_docstring does not write into the IR is part of the EmitAst model and compared after every call by the emitast family",
+    "emit.docstring as a call on the shared IR is abstract (doc_op); whether it rewrote the shared IR in a run is observed "
+    "by the harness and passed to the class function (the full statement assumes it does not: doc_pure)",
     "ast.parse on code strings outside TyExpr's fragment is an input table",
     "the parsers' side (parse.class_/function/argparse_ast do not alter the tree) is checked by execution only",
 ]
@@ -126,7 +129,7 @@ def explore(spec, ops, maxlen):
                 failures.append({"seq": seq, "td_mutated": td_mut,
                                  "what": "call %d (%s) of the sequence differs from the same call on a fresh copy"
                                          % (len(seq), o["k"])})
-            rec(seq, ir, td_mut or (changed and o["k"] in ("function", "docstring")), failed or bad)
+            rec(seq, ir, td_mut or (changed and o["k"] == "docstring"), failed or bad)
     rec([], ir0, False, False)
     return evals[0], failures
 
